@@ -14,7 +14,7 @@ PROP = dict(
          "panel dropping at every byte offset 0..N of a 3-frame binary (thorough: and every, quick: every second offset of a "
          "4-line ASCII) stream; 3 loss/reconnect cycles; retry periods default, 1, 2 s; cancellation before the dial, in the "
          "no-connection wait, during the 2 s probe, 0/50 ms after onconnect, idle, mid-header, mid-payload, mid-line, in the "
-         "ASCII 1 s EOF sleep, in the retry sleep, twice; plus n random scripts. EQ = the observed trace is accepted by the "
+         "ASCII 1 s EOF sleep, in the retry sleep, twice; message lists offered on msgsToPanel during the retry wait after a loss (100/400/800 ms into it, periods default, 2, 3 s, both modes, unbuffered and buffered channel, 3-30 lists), during the ASCII EOF sleep, across the reconnect and with cancellation inside the wait; plus n random scripts. EQ = the observed trace is accepted by the "
          "LTS (set-of-states simulation); H = the monitors of Spec/LifecycleSpec.lean on the trace; distinct = distinct script text",
     trusted_base=["Go scheduler, memory model, kernel TCP and the wall clock are outside the model (LTS labels / trace timestamps with tolerances)",
                   "atomicity of one LTS label = one Go statement group"],
